@@ -141,7 +141,7 @@ def run_unit(unit, repo='/repo', rlimit=None, seed=None, extra_args=(), timeout=
   if rlimit:
     cmd += ['--rlimit', str(rlimit)]
   if seed is not None:
-    cmd += ['-V', 'smt-option=smt.random_seed=%d' % (seed % 100000)]
+    cmd += ['--smt-option', 'smt.random_seed=%d' % (seed % 100000)]
   cmd += list(extra_args)
   res['cmd'] = ' '.join(cmd)
   env = dict(os.environ)
